@@ -205,6 +205,10 @@ func genJobs(c *Ctx) []genJob {
 		jobs = append(jobs, genJob{id: fmt.Sprintf("gen-sq1x-%d", f), kind: "sq1x", a: f, cycles: cyc}, genJob{id: fmt.Sprintf("gen-sq2x-%d", f), kind: "sq2x", a: f, cycles: cyc})
 	}
 	jobs = append(jobs, genJob{id: "gen-noise-fresh", kind: "noisefresh", cycles: 400})
+	// long runs across the wrap of the audio unit's 2^22-clock counter (1,048,576 machine cycles after power-up)
+	jobs = append(jobs, genJob{id: "gen-sq2-long", kind: "sq2", a: 1024, cycles: 1<<20 + 40000},
+		genJob{id: "gen-wave-long", kind: "wave", a: 1024, cycles: 1<<20 + 40000},
+		genJob{id: "gen-noise-long", kind: "noise", a: 3, b: 5, narrow: 0, cycles: 1<<20 + 40000})
 	// noise: every NR43 value with s <= 13
 	for s := 0; s <= 13; s++ {
 		for r := 0; r < 8; r++ {
